@@ -180,6 +180,11 @@ class PtyTerm(_Base):
                     except OSError:
                         return
 
+    def resize(self, cols: int, rows: int):
+        """the terminal window is resized (TIOCSWINSZ on the pty): what a later TIOCGWINSZ of the object must see"""
+        set_winsize(self.slave, cols, rows)
+        self.cols, self.rows = cols, rows
+
     def wait_seen(self, timeout: float = 5.0) -> bool:
         """Wait until the master side has received everything that was written."""
         end = time.time() + timeout
